@@ -9,7 +9,7 @@ use crate::with_curve;
 use ark_bulletproofs::r1cs::Prover;
 use ark_bulletproofs::PedersenGens;
 use ark_ec::{AffineRepr, CurveGroup, Group};
-use ark_ff::{BigInteger, PrimeField};
+use ark_ff::{BigInteger, Field, PrimeField};
 use ark_std::Zero;
 use merlin::Transcript;
 use serde_json::json;
@@ -84,6 +84,41 @@ fn case<G: CurveTag>(bytes: &[u8], col: &mut Collector) -> Result<(), Failure> {
     .map_err(|p| Failure::new("C13:prover-panic", format!("Prover::commit panicked: {}", p), what()))?;
     if got.0 != c1 || got.1 != c2 {
         return Err(Failure::new("C13:prover-commit", "Prover::commit(v, r).0 != PedersenGens::commit(v, r)", what()));
+    }
+    // a run of commitments on one prover: blindings repeat, values move in small steps, go
+    // back, jump; every returned commitment must be the same function of its own inputs
+    {
+        let n = 3 + ch.below(5);
+        let base: G::ScalarField = ScalarSpec::gen(&mut ch).to_f();
+        let blinds: [G::ScalarField; 2] = [r1, r2];
+        let mut seq: Vec<(G::ScalarField, G::ScalarField)> = vec![];
+        let mut cur = base;
+        for _ in 0..n {
+            match ch.below(5) {
+                0 => {}
+                1 => cur += G::ScalarField::from(1u64 + ch.below(4) as u64),
+                2 => cur -= G::ScalarField::from(1u64 + ch.below(4) as u64),
+                3 => cur += G::ScalarField::from(2u64).pow([ch.range(60, 70) as u64]),
+                _ => cur = ScalarSpec::gen(&mut ch).to_f(),
+            }
+            seq.push((cur, blinds[if ch.chance(200) { 0 } else { 1 }]));
+        }
+        let mut t2 = Transcript::new(b"c13-seq");
+        let outs = guarded(|| {
+            let mut p = Prover::new(&pc, &mut t2);
+            seq.iter().map(|(v, r)| p.commit(*v, *r).0).collect::<Vec<G>>()
+        })
+        .map_err(|p| Failure::new("C13:prover-panic", format!("Prover::commit panicked: {}", p), what()))?;
+        for (i, ((v, r), got)) in seq.iter().zip(outs.iter()).enumerate() {
+            if *got != ref_commit(&pc.B, &pc.B_blinding, v, r) {
+                return Err(Failure::new(
+                    "C13:prover-commit-sequence",
+                    format!("commitment #{} of a run of {} Prover::commit calls is not v*B + r*B_blinding of its own inputs", i, n),
+                    what(),
+                ));
+            }
+        }
+        col.class("prover-commit-run");
     }
     let wrap = {
         // v1 + v2 wraps around the modulus iff the integer sum is ≥ p
